@@ -185,7 +185,7 @@ func VsymC17Metadata() {
 		return
 	}
 	// stdout of a process that exited successfully
-	shape := vr.Choice("stdout", 5)
+	shape := vr.Choice("stdout", 6)
 	var wantOK bool
 	var name, desc, version, url string
 	var versions, caps []string
@@ -198,6 +198,10 @@ func VsymC17Metadata() {
 		cmd.stdout = vr.JSONBytes(vr.JNull())
 	case 3:
 		cmd.stdout = vr.JSONBytes(vr.JArr())
+	case 5:
+		// complete, valid metadata followed by something else
+		cmd.stdout = vr.JSONBytes(vr.JTrailing(vr.JObj("name", vr.JStr("foo"), "description", vr.JStr("d"), "version", vr.JStr("1.0.0"), "url", vr.JStr("u"),
+			"supportedContractVersions", vr.JArr(vr.JStr("1.0")), "capabilities", vr.JArr(vr.JStr("c")))))
 	default:
 		var kv []any
 		ok := true
@@ -269,12 +273,19 @@ func VsymC17Commands() {
 		cmd.stderr, kind, code, msg, meta = c17Stderr()
 		cmd.stdout = []byte(`{"keyId":"k"}`)
 	} else {
-		shape = vr.Choice("stdout", 8)
+		shape = vr.Choice("stdout", 9)
+		if shape == 8 {
+			// a well-formed reply followed by something else (a crash banner, a second reply)
+			shape = 1
+			cmd.stdout = vr.JSONBytes(vr.JTrailing(vr.JObj("keyId", vr.JStr("k"))))
+		}
 		switch shape {
 		case 0:
 			cmd.stdout = []byte{}
 		case 1:
-			cmd.stdout = vr.JSONBytes(vr.JBad())
+			if cmd.stdout == nil {
+				cmd.stdout = vr.JSONBytes(vr.JBad())
+			}
 		case 2:
 			cmd.stdout = vr.JSONBytes(vr.JArr())
 		case 3:
@@ -369,7 +380,8 @@ func VsymC17Commands() {
 type c17ProcEnv struct {
 	ctx         *c17Ctx
 	hasDeadline bool
-	deadline    int64 // instant at which the context expires
+	cancelOnly  bool  // the context ends by cancellation (it has no deadline of its own)
+	deadline    int64 // instant at which the context expires or is cancelled
 	exits       bool  // the plugin process exits by itself ...
 	exitAt      int64 // ... at this instant
 	exitOK      bool  // ... with status 0
@@ -389,12 +401,28 @@ type c17ProcEnv struct {
 
 var c17Env *c17ProcEnv
 
+func (e *c17ProcEnv) doneErr() error {
+	if e.cancelOnly {
+		return context.Canceled
+	}
+	return context.DeadlineExceeded
+}
+
 type c17Ctx struct {
 	context.Context
-	err error
+	err         error
+	hasDeadline bool
 }
 
 func (c *c17Ctx) Err() error { return c.err }
+
+// Deadline: only a deadline context reports one; a context ended by cancellation does not
+func (c *c17Ctx) Deadline() (time.Time, bool) {
+	if c.hasDeadline {
+		return time.Unix(2000000000, 0), true
+	}
+	return time.Time{}, false
+}
 
 //vsym:stub os/exec.CommandContext = c17CommandContext
 //vsym:stub (*os/exec.Cmd).Run = c17CmdRun
@@ -440,10 +468,10 @@ func c17CmdRun(c *exec.Cmd) error {
 		// runs until killed by the context (the harness only calls with a deadline in that case)
 		procEnd = e.deadline
 		e.killed = true
-		e.ctx.err = context.DeadlineExceeded
+		e.ctx.err = e.doneErr()
 	}
 	if e.hasDeadline && e.deadline <= procEnd {
-		e.ctx.err = context.DeadlineExceeded
+		e.ctx.err = e.doneErr()
 	}
 	// output: the process writes to both streams through whatever writers the host installed
 	so, okO := c.Stdout.(*nio.LimitedWriter)
@@ -503,6 +531,7 @@ const c17Horizon = int64(1) << 40 // about 18 minutes in nanoseconds
 func VsymC17Exec() {
 	e := &c17ProcEnv{}
 	e.hasDeadline = vr.Bool("hasDeadline")
+	e.cancelOnly = vr.Bool("endsByCancellation")
 	e.deadline = vr.Int64("deadline")
 	e.exits = vr.Bool("exits")
 	e.exitAt = vr.Int64("exitAt")
@@ -515,7 +544,7 @@ func VsymC17Exec() {
 		c17ExecNative(e)
 		return
 	}
-	e.ctx = &c17Ctx{Context: context.Background()}
+	e.ctx = &c17Ctx{Context: context.Background(), hasDeadline: e.hasDeadline && !e.cancelOnly}
 	c17Env = e
 	stdout, stderr, err := execCommander{}.Output(e.ctx, "/plugins/foo/notation-foo", plugin.CommandGetMetadata, []byte("{}"))
 	vr.Assert(e.runCalls == 1 && e.cmdOK, "the command is created with the caller's context and run once")
@@ -532,7 +561,7 @@ func VsymC17Exec() {
 	if e.hasDeadline {
 		// bounded return: at most one minute after the later of deadline ... whatever the descendants do
 		vr.FindingKey("no-wait-delay-descendant-holds-pipes")
-		vr.Assert(e.returnedAt <= c17Max(e.deadline, 0)+int64(time.Minute), "the call returns within a bounded delay after its context expires, whatever the plugin or its descendants do")
+		vr.Assert(e.returnedAt <= c17Max(e.deadline, 0)+int64(time.Minute), "the call returns within a bounded delay after its context is cancelled or expires, whatever the plugin or its descendants do")
 		vr.FindingKey("")
 		if e.killed {
 			vr.Reach("killed at the deadline")
@@ -579,7 +608,15 @@ func c17ExecNative(e *c17ProcEnv) {
 	if err := os.WriteFile(path, []byte(script), 0o755); err != nil {
 		panic(err)
 	}
-	ctx, cancel := context.WithTimeout(context.Background(), 300*time.Millisecond)
+	var ctx context.Context
+	var cancel context.CancelFunc
+	if e.cancelOnly {
+		ctx, cancel = context.WithCancel(context.Background())
+		timer := time.AfterFunc(300*time.Millisecond, cancel)
+		defer timer.Stop()
+	} else {
+		ctx, cancel = context.WithTimeout(context.Background(), 300*time.Millisecond)
+	}
 	defer cancel()
 	t0 := time.Now()
 	_, _, rerr := execCommander{}.Output(ctx, path, plugin.CommandGetMetadata, []byte("{}"))
@@ -589,7 +626,7 @@ func c17ExecNative(e *c17ProcEnv) {
 	} else {
 		vr.Reach("process failed")
 	}
-	vr.Assert(el < 300*time.Millisecond+10*time.Second, "the call returns within a bounded delay after its context expires, whatever the plugin or its descendants do")
+	vr.Assert(el < 300*time.Millisecond+10*time.Second, "the call returns within a bounded delay after its context is cancelled or expires, whatever the plugin or its descendants do")
 	if !exitsFirst {
 		vr.Reach("killed at the deadline")
 	}
